@@ -495,8 +495,12 @@ EditClauses(c, S) ==
                     /\ Names(S) = DOMAIN eff.comps
                     /\ \A m \in Muxes(S) : S.par[m] = eff.par[m]) >>, "", "")
 
+\* solve() of a system inside the modelled class may only raise the documented RuntimeError / ValueError; any other
+\* exception (OverflowError from a stale registry, KeyError, IndexError ...) means the system has no report either
+Crashed(c) == c.outcome = "exc" /\ c.exc \notin {"RuntimeError", "ValueError", "TypeError"}
+
 CaseClauses(c, S) ==
-  IF ~c.built THEN BuildClauses
+  IF ~c.built \/ (Crashed(c) /\ Modelled(S)) THEN BuildClauses
   ELSE EditClauses(c, S) \o WantClauses(c, S) \o
        (IF ~Modelled(S) THEN Tag(<< Cl("note.Unmodelled", TRUE, FALSE) >>, "", "")
         ELSE SolveClauses1(c, S, c.args))
